@@ -142,6 +142,14 @@ Definition sched_schedule (k : skind) (hsh : N -> N) (pt T : N) (cs : list cand)
   | _ => schedule pt T (addrs (seq_of me (pks cs))) me now
   end.
 
+(* who owns the slot of time t (C05: the eligible sequence / the v1 hash), independently of whether t is a legal time *)
+Definition slot_owner (k : skind) (hsh : N -> N) (pt T : N) (cs : list cand) (me t : N) : option N :=
+  match k with
+  | KV1 => option_map p_addr (whose_turn hsh (actives_v1 me (props cs)) t)
+  | _ => let seq := addrs (seq_of me (pks cs)) in
+         nth_error seq (N.to_nat (slot_index pt T (N.of_nat (length seq)) t))
+  end.
+
 (* the Go loops over the list keep the LAST match *)
 Definition find_last {A} (f : A -> bool) (l : list A) : option A := find f (rev l).
 
